@@ -32,6 +32,28 @@ def resume(now, s):
     raise InvalidCase(op)
 
 
+class _NoLimit:
+    """'No enclosing deadline at all': later than every date, the infinite one included (an event at date inf ties
+    with a deadline at inf, but not with the absence of a deadline)."""
+    def __gt__(self, other):
+        return True
+
+    def __ge__(self, other):
+        return True
+
+    def __lt__(self, other):
+        return False
+
+    def __le__(self, other):
+        return other is self
+
+    def __repr__(self):
+        return 'NOLIMIT'
+
+
+NOLIMIT = _NoLimit()
+
+
 class ClockModel:
     """Expected (activity, idx, kind, time, optional) events of a time-only program."""
 
@@ -214,7 +236,10 @@ def programs(draw, tier):
                       for _ in range(draw(st.integers(1, 6 if big else 4)))]}
     for r in prog['roots']:
         if draw(st.integers(0, 11)) == 0:
-            r['steps'].append({'op': draw(st.sampled_from(['at_ge', 'at_eq'])), 't': 'inf'})
+            if draw(st.integers(0, 2)) == 0:
+                r['steps'].append({'op': 'sleep', 'd': 'inf'})       # `time + inf`: resumes when the clock gets there
+            else:
+                r['steps'].append({'op': draw(st.sampled_from(['at_ge', 'at_eq'])), 't': 'inf'})
     return resolve(prog)
 
 
@@ -290,7 +315,7 @@ class C01(Check):
         start = num(prog['start'])
         model.roots = {r['name'] for r in prog['roots']}
         for r in prog['roots']:
-            model.activity(r, start, INF)
+            model.activity(r, start, NOLIMIT)
         nacts = len(prog['roots']) + sum(count_acts(r['steps']) for r in prog['roots'])
         probe = Probe(b_step=400 * (nacts + 5), b_total=4000 * (nacts + 5))
         it, outcome, exc, p = execute(prog, probe)
